@@ -192,6 +192,8 @@ type World struct {
 	killQueue    []killTarget
 	killed       map[string]bool // instance/value already realised
 	victims      map[int]bool
+	// StrictlyTimely: the closing phase delivers strictly within the synchrony bound
+	StrictlyTimely bool
 	// Inbox: validated messages not yet handed to the participant (per node index)
 	Inbox map[int][]*staged
 	// rebroadcasting is set while a RequestRebroadcast is being served
